@@ -455,6 +455,7 @@ func TestC06Progress(t *testing.T) {
 	rapid.Check(t, func(rt *rapid.T) {
 		sc := genC06(rt)
 		rec.Current("scenario", sc)
+		vnet.FreezeHook = mutexDeadlockHook(rec, "scenario", sc, "silent stall")
 		r := runC06(t, sc)
 		if r.kind != "" {
 			r.labels = append(r.labels, "viol_"+r.kind)
